@@ -526,8 +526,8 @@ class OverhangFilter(Module):
             offset_masks[i] = np.logical_and((support_idx[i][0] >= 0) * (support_idx[i][0] < size[dir_orth1]),
                                              (support_idx[i][1] >= 0) * (support_idx[i][1] < size[dir_orth2]))
 
-        # Loop over all the layers
-        while True:
+        # Loop over all the layers, except the base layer (a domain with a single layer only has its base layer)
+        while (ind_layer >= 1) if dx_layer >= 0 else (ind_layer <= size[dir_layer]-2):
             # 3) Take smooth minimum
             el = [None, None, None]
             el[dir_layer] = ind_layer
@@ -558,8 +558,6 @@ class OverhangFilter(Module):
                 dxprint[els] += c[supp_mask]*np.power(xprint[els]+self.shift, self.p-1)
 
             ind_layer -= dx_layer
-            if not 1 <= ind_layer < size[dir_layer]-1:
-                break
 
         # Base layer is directly transferred
         el = [None, None, None]
